@@ -96,9 +96,10 @@ def one(ctx, data, related, pics, tmpdir, rng):
     ph = lambda o: [x for x in flat(o['ok'], 5) if x.startswith('----')] if 'ok' in o else o
     for v in ('body_runs', 'header_runs', 'footnotes_runs'):
         if ph(i[v]) != ph(m[v]): ctx.diff('placeholder runs of ' + v, case, ph(i[v]), ph(m[v])); good = False
-    for mode in ('none', 'existing', 'nested', 'save_images'):
+    for mode in ('none', 'existing', 'nested', 'save_images', 'images_then_save'):
         work = tempfile.mkdtemp(dir=tmpdir)
         folder = None if mode == 'none' else os.path.join(work, 'imgs') if mode in ('existing', 'save_images') else os.path.join(work, 'a', 'b', 'c')
+        if mode == 'images_then_save': folder = os.path.join(work, 'late', 'x')
         if mode == 'existing': os.mkdir(folder)
         before = listing(work)
         with warnings.catch_warnings():
@@ -107,6 +108,10 @@ def one(ctx, data, related, pics, tmpdir, rng):
                 if mode == 'save_images':
                     with docx2python(io.BytesIO(data)) as d:
                         got = d.save_images(folder); got2 = d.images
+                elif mode == 'images_then_save':
+                    # the map is read first (and may be cached): saving afterwards must still write the files
+                    with docx2python(io.BytesIO(data)) as d:
+                        got2 = d.images; got = d.save_images(folder)
                 else:
                     with docx2python(io.BytesIO(data), folder) as d:
                         got = d.images; got2 = got
@@ -124,7 +129,7 @@ def one(ctx, data, related, pics, tmpdir, rng):
             wantfiles = {os.path.relpath(os.path.join(folder, n), work): h for n, h in want.items()}
             if after != wantfiles:
                 ctx.fail('the image folder does not hold exactly the image files with identical bytes', {**case, 'image_folder': mode}, {'written': after, 'expected': wantfiles}); good = False
-        if mode != 'save_images':
+        if mode not in ('save_images', 'images_then_save'):
             allruns = [rs for v in runs.values() for rs in v]
             for t in sorted({t for t, _, _ in pics}):
                 par = next((rs for rs in allruns if any(f'«{t}»' in x for x in rs)), None)
